@@ -32,9 +32,14 @@ def parse_attrs():
         for key in ('limit', 'ttl'):
             mm = re.search(r'\b%s\s*=\s*(\d+)' % key, args)
             a[key] = int(mm.group(1)) if mm else None
+        mm = re.search(r'\bfrequency_weight\s*=\s*([0-9.]+)', args)
+        a['frequency_weight'] = mm.group(1) if mm else None
         for key in ('policy', 'scope', 'max_memory', 'name'):
             mm = re.search(r'\b%s\s*=\s*"([^"]*)"' % key, args)
             a[key] = mm.group(1) if mm else None
+        mm = re.search(r'\bmax_memory\s*=\s*(\d+)\b', args)
+        if mm:
+            a['max_memory'] = mm.group(1)
         for key in ('cache_if', 'invalidate_on'):
             mm = re.search(r'\b%s\s*=\s*(\w+)' % key, args)
             a[key] = mm.group(1) if mm else None
@@ -203,9 +208,9 @@ def tail_rules(attrs, await_interference=False, cache_static=None):
 def apply_tail_rules(tail, attrs, log, base_line, qual, await_interference=False, cache_static=None):
     for r in tail_rules(attrs, await_interference, cache_static):
         if r.repl is None:
-            if await_interference and r.name == 'R9.body_async':
+            if await_interference:
                 def repl(m):
-                    # other tasks run while the body is suspended: arbitrary interference (await_point) before the call resumes
+                    # other threads / tasks run while the body runs (no lock held): arbitrary interference (await_point) before the call goes on
                     return '{ fx_body(fx); let __awaited = ' + m.group(1) + '; await_point(__cache); __awaited }'
             else:
                 def repl(m):
